@@ -164,9 +164,23 @@ def unbounded_poisson_solver(K, dim):
         else:
             rhs, out = K.field("rhs_vector_field", [3] + n), K.field("solution_vector_field", [3] + n)
             sol.vector_field_solve(solution_vector_field=out, rhs_vector_field=rhs)
-            solves = [((c,), (c,), 1 + c, c) for c in range(3)]
+            # a component whose right-hand side the code itself has established to be identically zero on this path (a
+            # global test such as `.any()`) may be solved without transforms: its solution must then be zero (the
+            # convolution of zero); every other component needs its own transform pair
+            from svx import ctx
+            zero = [ctx.decide(Sym.I(f"allzero({rhs.buf.name}|0={c})") == 1) is True for c in range(3)]
+            transformed = [c for c in range(3) if not zero[c]]
+            skipped = len(fft.forward) == 1 + len(transformed) and len(transformed) < 3
+            solves = [((c,), (c,), 1 + i, i) for i, c in enumerate(transformed if skipped else range(3))]
+            if skipped:
+                cz = K.cell(n, name="z")
+                for c in range(3):
+                    if zero[c]:
+                        K.ensures_eq(f"solution_of_an_identically_zero_rhs_component_is_zero[{c}]", K.value(out, (c,) + cz), 0)
         K.ensures("one_forward_and_one_backward_transform_per_scalar_solve",
                   len(fft.forward) == 1 + len(solves) and len(fft.backward) == len(solves))
+        if len(fft.forward) != 1 + len(solves) or len(fft.backward) != len(solves):
+            return
         s = dx ** dim
         for pre_out, pre_rhs, fk, bk in solves:
             A = fft.forward[fk]
@@ -226,3 +240,13 @@ def unbounded_poisson_solver_native_convolution(K, shape):
             g = -np.log(r) / (2 * np.pi) if dim == 2 else 1 / (4 * np.pi * r)
         tot += g * float(rhs[tuple(k)]) * dx**dim
     K.ensures_eq("solution_is_the_free_space_greens_function_convolution", float(out[c]), tot)
+    if dim == 3:
+        # the vector solve equals three scalar solves, whatever the output array held before and also when a
+        # component of the right-hand side is identically zero
+        vrhs = np.stack([rhs, np.zeros(shape), first])
+        vout = K.field("earlier_solution", (3,) + tuple(shape))
+        sol.vector_field_solve(solution_vector_field=vout, rhs_vector_field=vrhs)
+        for comp in range(3):
+            ref = np.zeros(shape)
+            sol.solve(solution_field=ref, rhs_field=vrhs[comp].copy())
+            K.ensures_eq(f"vector_solve_equals_scalar_solve[{comp}]", float(vout[(comp,) + tuple(c)]), float(ref[c]))
